@@ -1,7 +1,7 @@
 (* QueueIO.v — the queued machine with several models: Queue.drain instantiated with the
    flat engine; decoding of cases / encoding of observations. *)
 From Coq Require Import List Arith Bool.
-From M Require Import Sx Base Flat FlatSpec FlatIO Queue.
+From M Require Import Sx Base Flat FlatSpec FlatIO Queue Reent.
 Import ListNotations.
 
 Record world : Type := mkWorld { w_states : list (model * state); w_pos : nat }.
@@ -58,15 +58,30 @@ Section Inst.
     end.
 End Inst.
 
-(* case := [machine; env; models [(id, initial state)]; history [(model, event, payload)]] *)
+(* unqueued machine: every top-level trigger runs the re-entrant engine *)
+Fixpoint run_rhistory (mc : machine) (ev : env) (fuel : nat) (hs : list (model * event * nat))
+         (p : nat) (w : rworld) : list sx :=
+  match hs with
+  | [] => []
+  | (m, e, a) :: rest =>
+      match rtrigger mc ev fuel m e a p w with
+      | (tr, w', r) =>
+          L [e_list e_item tr; e_result r; e_list (e_pair e_nat e_nat) (rw_states w'); e_list e_nat (rw_models w')]
+          :: run_rhistory mc ev fuel rest (p + length tr) w'
+      end
+  end.
+
+(* case := [machine; env; models [(id, initial state)]; history [(model, event, payload)]; queued?] *)
 Definition run_queue_case (x : sx) : sx :=
   match x with
-  | L [mcx; evx; msx; hx] =>
+  | L [mcx; evx; msx; hx; qx] =>
       match d_machine mcx, d_env evx, d_list (d_pair d_nat d_nat) msx,
-            d_list (fun y => match y with L [N m; N e; N a] => Some (m, e, a) | _ => None end) hx with
-      | Some mc, Some ev, Some ms, Some hs =>
+            d_list (fun y => match y with L [N m; N e; N a] => Some (m, e, a) | _ => None end) hx, d_bool qx with
+      | Some mc, Some ev, Some ms, Some hs, Some true =>
           L [N 1; L (run_qhistory mc ev 200 hs (mkWorld ms 0) (mkQS [] (map fst ms) 0 []))]
-      | _, _, _, _ => L [N 0]
+      | Some mc, Some ev, Some ms, Some hs, Some false =>
+          L [N 2; L (run_rhistory mc ev 40 hs 0 (mkRW ms (map fst ms)))]
+      | _, _, _, _, _ => L [N 0]
       end
   | _ => L [N 0]
   end.
